@@ -16,6 +16,9 @@ Record robs := mkRobs { o_disp : bool; o_status : Z; o_snap : bytes; f_disp : bo
 Inductive c11case :=
 | CFields (names : list string)                              (* flattened field paths of RequestCtx by reflection, sorted *)
 | CReset (k : rkind) (flags : list (string * bool))          (* all fields dirtied, the real reset called: field, is zero afterwards *)
+| CRsFields (names : list string)                           (* field names of the pooled requestStream by reflection, sorted *)
+| CRsAcquire (flags : list (string * bool))                 (* after acquireRequestStream on a pooled/new object: field, is zero *)
+| CRsHygiene (clean : list bool)                            (* streams abandoned in many states, then probe requests: were totalBytesRead, chunkLeft, eof, err all zero when the probe's handler was called *)
 | CWritten (names : list string)                            (* observable fields that are non-zero when a handler runs on a new server *)
 | CHist (c : scfg) (conns : list (list lreq)) (obs : list (list robs)) (log : list (list lev)).
 
@@ -76,6 +79,13 @@ Definition corr_ok (x : c11case) : bool :=
   | CFields names => list_eqb String.eqb (sort_strings all_fields) names
   | CReset k flags =>
       list_eqb flag_eqb (map (fun f => (f, zero_after k f)) (sort_strings (rk_fields k))) flags
+  | CRsFields names => list_eqb String.eqb (sort_strings rs_fields) names
+  | CRsAcquire flags =>
+      (* acquire on a released object: exactly the assigned fields are set *)
+      list_eqb flag_eqb (map (fun f => (f, negb (mem f rs_assigned))) (sort_strings rs_fields)) flags
+  | CRsHygiene clean =>
+      (* the model: a released object has every field zero, whatever state the stream was in *)
+      forallb (Bool.eqb (forallb (zero_after KRsRelease) rs_fields)) clean
   | CWritten names =>
       (* the model's write set of parsing + loop initialisation covers what the real code writes *)
       forallb (fun f => mem f loop_fields || mem f assigned_fields || mem f appended_fields) names
@@ -125,12 +135,18 @@ Fixpoint hist_ok (c : scfg) (conns : list (list lreq)) (obs : list (list robs)) 
 Definition prop_ok (x : c11case) : bool :=
   match x with
   | CFields _ => true
+  | CRsFields _ => true
+  | CRsAcquire flags =>
+      (* nothing but what acquire assigns may be found in the object a new request gets *)
+      forallb (fun p => mem (fst p) rs_assigned || snd p) flags
+  | CRsHygiene clean => forallb (fun b => b) clean
   | CWritten _ => true
   | CReset k flags =>
       (* the resets a ctx goes through between two requests leave every observable field zero *)
       match k with
       | KCtxReset => forallb (fun p => if observable (fst p) then snd p else true) flags
       | KRequestReset | KResponseReset => forallb (fun p => if observable (fst p) then snd p else true) flags
+      | KRsRelease => forallb snd flags          (* every field of a pooled requestStream: state or a reference that must not be kept *)
       | _ => true
       end
   | CHist c conns obs log => hist_ok c conns obs log
